@@ -547,6 +547,7 @@ func (c *c04) absentStep(v *TVal) (pstep, bool) {
 }
 
 func (c *c04) newValue(t *TType) *TVal {
+	c.vg.o.nodes = 0
 	return c.vg.value(t, 1+c.w.T.Intn(2, "newval.depth"))
 }
 
